@@ -137,3 +137,116 @@ func (v *VerifSink) Process(entities []*server.Entity) error {
 	return v.s.processEntities(v.sched.Runner, entities)
 }
 func (v *VerifSink) End() error { return v.s.endFullSync(context.Background(), v.sched.Runner) }
+
+// ---- C17: jobs with error handlers and a scripted sink ----
+
+type verifScriptedSink struct {
+	inner       Sink
+	failIDs     map[string]bool
+	rejectFirst int // reject every batch during the first N calls (transient failure)
+	killOnCall  int // cancel the run in the N-th call (0 = never)
+	jobID       string
+	mu          sync.Mutex
+	calls       int
+	delivered   []string
+}
+
+func (v *verifScriptedSink) GetConfig() map[string]interface{} { return v.inner.GetConfig() }
+func (v *verifScriptedSink) startFullSync(r *Runner) error     { return v.inner.startFullSync(r) }
+func (v *verifScriptedSink) endFullSync(ctx context.Context, r *Runner) error {
+	return v.inner.endFullSync(ctx, r)
+}
+func (v *verifScriptedSink) processEntities(runner *Runner, entities []*server.Entity) error {
+	v.mu.Lock()
+	v.calls++
+	n := v.calls
+	v.mu.Unlock()
+	if v.killOnCall == n {
+		if rs := runner.raffle.runningJob(v.jobID); rs != nil {
+			rs.cancel()
+		}
+	}
+	if n <= v.rejectFirst {
+		return errors.New("verif: sink unavailable")
+	}
+	for _, e := range entities {
+		if v.failIDs[e.ID] {
+			return errors.New("verif: sink rejects " + e.ID)
+		}
+	}
+	if err := v.inner.processEntities(runner, entities); err != nil {
+		return err
+	}
+	v.mu.Lock()
+	for _, e := range entities {
+		v.delivered = append(v.delivered, e.ID)
+	}
+	v.mu.Unlock()
+	return nil
+}
+
+// VerifHandledJob is a scheduled-style job (built like AddJob builds it, error handlers included)
+// whose sink is scripted.
+type VerifHandledJob struct {
+	j    *job
+	sink *verifScriptedSink
+	s    *Scheduler
+}
+
+func (s *Scheduler) VerifHandledJobFor(cfg *JobConfiguration, failIDs []string, rejectFirst, killOnCall int) (*VerifHandledJob, error) {
+	if err := s.verify(cfg); err != nil {
+		return nil, err
+	}
+	js, err := s.toTriggeredJobs(cfg)
+	if err != nil || len(js) == 0 {
+		return nil, fmt.Errorf("no job built: %v", err)
+	}
+	j := js[0]
+	sc := &verifScriptedSink{inner: j.pipeline.spec().sink, failIDs: map[string]bool{}, rejectFirst: rejectFirst, killOnCall: killOnCall, jobID: cfg.ID}
+	for _, id := range failIDs {
+		sc.failIDs[id] = true
+	}
+	j.pipeline.spec().sink = sc
+	return &VerifHandledJob{j: j, sink: sc, s: s}, nil
+}
+
+// Run executes the job once, synchronously (re-runs scheduled by a reRun handler happen later on
+// their own timer).
+func (h *VerifHandledJob) Run() (panicked string) {
+	defer func() {
+		if r := recover(); r != nil {
+			panicked = fmt.Sprint(r)
+		}
+	}()
+	h.j.Run()
+	return ""
+}
+func (h *VerifHandledJob) Calls() int {
+	h.sink.mu.Lock()
+	defer h.sink.mu.Unlock()
+	return h.sink.calls
+}
+func (h *VerifHandledJob) Delivered() []string {
+	h.sink.mu.Lock()
+	defer h.sink.mu.Unlock()
+	return append([]string{}, h.sink.delivered...)
+}
+func (h *VerifHandledJob) Result() (lastError string, processed int, has bool) {
+	res := &jobResult{}
+	if err := h.s.Store.GetObject(server.JobResultIndex, h.j.id, res); err == nil && res.ID != "" {
+		return res.LastError, res.Processed, true
+	}
+	return "", 0, false
+}
+func (h *VerifHandledJob) Token() string {
+	st, err := h.s.GetJobState(h.j.id)
+	if err != nil || st == nil {
+		return ""
+	}
+	return st.ContinuationToken
+}
+func (h *VerifHandledJob) Idle() bool {
+	h.s.Runner.raffle.runningMu.Lock()
+	defer h.s.Runner.raffle.runningMu.Unlock()
+	return len(h.s.Runner.raffle.runningJobs) == 0
+}
